@@ -134,7 +134,7 @@ PROPS = {
         "engines": [storm("matrix")],
         "rule": "even shards: matrix financial instruction x bank state {Paused, ReduceOnly, Killed via a real wipe-out} with positive controls, reduce-only valuation cells, and protocol-pause timing cells at start+{0,1,1799,1800,1801} with three propagation orders, committed so that the behavioural oracle (no vault / position movement during the group's pause window) sees them; odd shards: storm; distinct = (cell, state, outcome, error code)",
         "assumptions": COMMON_ASSUMPTIONS + ["'in force for a group' is defined by the pause state recorded in the group's own cache (DESIGN 4 C14)"],
-        "floors": {"quick": {"pulse.health_signs_compared/maintenance": 100, "C14.matrix_controls_ok": 100, "C14.matrix_state_cells": 200, "C14.pause_window_cells": 300, "C14.after_expiry_cells": 200, "C14.receivership_on_paused_bank_cells": 30, "scen.bank_killed": 2}},
+        "floors": {"quick": {"pulse.levels_compared_for_accounts_with_reduce_only_deposits": 50, "pulse.health_signs_compared/maintenance": 100, "C14.matrix_controls_ok": 100, "C14.matrix_state_cells": 200, "C14.pause_window_cells": 300, "C14.after_expiry_cells": 200, "C14.receivership_on_paused_bank_cells": 30, "scen.bank_killed": 2}},
     },
     "C19": {
         "engines": [storm("admin")],
